@@ -23,7 +23,7 @@ T = {
  "C08": ("exploration", "round-trip monitor: Sign -> Parse -> Verify compared field-wise with the request; remote-signer bytes compared with independently reconstructed to-be-signed bytes",
          "Seed-generated valid sign requests (payload kinds, times with sub-second parts/zones, attributes, both schemes, six key specs, chain lengths, local/remote signers) are signed, re-parsed and verified; every field is compared after the statement's normalisation.", "JSON value equality uses decimal-literal comparison; inputs listed in DESIGN 7 are outside the domain.", "DESIGN 4/C08"),
  "C09": ("exploration", "crash/hang monitor over child processes fed structure-aware and byte-level mutants; native coverage-guided fuzzing in the thorough tier",
-         "Mutated envelopes, key/certificate files, certificates with hostile URL/serial/extension shapes and mutated OCSP/CRL bodies are pushed through every public entry point inside worker processes; the oracle is process survival, per-call recover() and a goroutine-state hang classifier.", "A clean run means no crash on the inputs produced; thorough adds go test -fuzz (iteration-bounded).", "DESIGN 4/C09"),
+         "Mutated envelopes, key/certificate files, certificates with hostile URL/serial/extension shapes and mutated OCSP/CRL bodies are pushed through every public entry point inside worker processes; the oracle is process survival, per-call recover() and a goroutine-state hang classifier.", "A clean run means no crash on the inputs produced; thorough adds go test -fuzz (six targets, iteration-bounded).", "DESIGN 4/C09"),
  "C10": ("exploration", "differential run against a reference interpreter of CRL entry semantics; small scope enumerated completely",
          "All base/delta entry lists up to 2 entries over the full alphabet (3-4 over a reduced one) with signing time zero and non-zero are built as real DER CRLs and run through ValidateContext; the result must be in the set the reference interpreter (Appendix A.3) allows.", "Reference interpreter is trusted; ties between hold and remove at equal times admit both outcomes.", "DESIGN 4/C10"),
  "C11": ("exploration", "trace checker over the transport's request log plus reference decision table",
